@@ -135,6 +135,15 @@ pub enum InvalidSchemaError {
     #[error("Multiple types or intefaces with the name \"{0}\".")]
     DuplicateTypeOrInterfaceDefinition(String),
 
+    #[error("The directive \"@{0}\" is defined more than once.")]
+    DuplicateDirectiveDefinition(String),
+
+    #[error("The scalar type \"{0}\" is defined more than once.")]
+    DuplicateScalarDefinition(String),
+
+    #[error("The schema defines a type named \"{0}\", which is the name of a built-in scalar type.")]
+    BuiltinScalarRedefinition(String),
+
     #[error("The schema does not contain a \"schema {{ ... }}\" definition.")]
     MissingSchemaDefinition,
 
